@@ -2,7 +2,7 @@
    Property theorems only; proofs are in Proofs/ChainProofs.v and Proofs/StatsProofs.v. *)
 From Coq Require Import List ZArith Bool.
 Import ListNotations.
-From Goat Require Import Model.Chain Proofs.ChainProofs Model.Stats Proofs.StatsProofs.
+From Goat Require Import Model.Chain Proofs.ChainProofs Model.Stats Proofs.StatsProofs Model.StatsAuto Proofs.StatsAutoProofs.
 
 (* ---- (a) interceptor chains ---- *)
 
@@ -200,6 +200,58 @@ Example C20_ex_tagged :
   tag_depths true 3 1 (su_events (SU_run DecOk RNil)) =
   [(TagRPC, 2); (Begin, 2); (InHeader, 2); (InPayload, 3); (OutHeader, 3); (OutPayload, 3); (OutTrailer, 3); (End true, 3)]%nat.
 Proof. vm_compute. reflexivity. Qed.
+(* ---- the emission points as a small-step automaton (Model/StatsAuto.v): states
+   = program points of invoke / newStream + stream object / processUnaryRpc /
+   runStream + stream object between two stats calls, transitions labelled with the
+   events emitted, Done = the RPC is over at that role. [apath s evs]: evs is the
+   event list of a COMPLETE path from s. ---- *)
+
+(* the per-exit tables of Model/Stats.v are exactly the path language of the
+   automaton, role by role (so the rig's per-exit comparison with the tables is a
+   comparison with the automaton's paths) *)
+Theorem C20_stats_tables_are_paths :
+  (forall evs, apath CU_entry evs <-> exists x, cu_wf x = true /\ evs = cu_events x) /\
+  (forall evs, apath SU_entry evs <-> exists x, su_ok x /\ evs = su_events x) /\
+  (forall evs, apath SS_entry evs <-> evs = ss_events SS_bad_metadata \/ exists ops r, evs = ss_events (SS_run ops r)) /\
+  (forall evs, apath CS_entry evs <-> evs = cs_events CSO_refused [] \/ evs = cs_events CSO_write_fail []) /\
+  (forall evs, (exists e h, arun CS_entry evs (CS_open e h)) <-> exists ops, evs = cs_events CSO_ok ops).
+Proof.
+  split; [exact cu_language|]. split; [exact su_language|]. split; [exact ss_language|].
+  split; intro evs; apply cs_language.
+Qed.
+Print Assumptions C20_stats_tables_are_paths.
+
+(* on EVERY complete path of every role (failed open, write failure, cancel,
+   handler error, ... included): nothing at all (a request refused before dispatch)
+   or the tagging call and exactly one Begin before every other event *)
+Theorem C20_stats_begin_first : forall s0 evs,
+  s0 = CU_entry \/ s0 = SU_entry \/ s0 = SS_entry \/ s0 = CS_entry -> apath s0 evs ->
+  evs = [] \/ exists rest, evs = TagRPC :: Begin :: rest /\ ~ In Begin rest /\ ~ In TagRPC rest.
+Proof. exact begin_first_all_paths. Qed.
+Print Assumptions C20_stats_begin_first.
+
+(* ... and exactly one End, nothing after it. (An OPENED client stream is not a
+   complete path - the object lives on -: for it C20_stats_client_stream, through
+   the last clause of C20_stats_tables_are_paths, gives one End and after it only
+   the OutTrailer events of late CloseSend calls.) *)
+Theorem C20_stats_end_once_last : forall s0 evs,
+  s0 = CU_entry \/ s0 = SU_entry \/ s0 = SS_entry \/ s0 = CS_entry -> apath s0 evs ->
+  evs = [] \/ exists pre b, evs = pre ++ [End b] /\ forall b', ~ In (End b') pre.
+Proof. exact end_once_last_all_paths. Qed.
+Print Assumptions C20_stats_end_once_last.
+
+(* order: on every complete path of a unary or server role every InPayload comes
+   after the InHeader *)
+Theorem C20_stats_order : forall s0 evs,
+  s0 = CU_entry \/ s0 = SU_entry \/ s0 = SS_entry -> apath s0 evs -> before InHeader InPayload evs.
+Proof. exact inheader_before_inpayload. Qed.
+Print Assumptions C20_stats_order.
+
+Example C20_ex_path :
+  apath SS_entry [TagRPC; Begin; InHeader; OutHeader; OutHeader; OutPayload; OutTrailer; End false].
+Proof.
+  apply (proj2 (ss_language _)). right. exists [SSendHeader false; SSendMsg], RErr. reflexivity.
+Qed.
 Example C20_ex_client_unary_eof :
   cu_wf (CU_early REof) = true /\ cu_events (CU_early REof) = [TagRPC; Begin; OutHeader; OutPayload; End false].
 Proof. vm_compute. split; reflexivity. Qed.
